@@ -729,11 +729,15 @@ class Engine(object):
     table = self.tables[table_id]
     col = table.get_column(col_id)
     checkpoint = self._get_undo_checkpoint()
+    # Evaluating a formula here must not schedule (or cancel) automatic removals, e.g. the `group`
+    # formula of a summary table does that for its record, which may be a wrapper in this case.
+    auto_remove_set = set(self.docmodel._auto_remove_set)
     # Makes calls to REQUEST synchronous, since raising a RequestingError can't work here.
     self._sync_request = True
     try:
       return self._recompute_one_cell(table, col, row_id, record_attributes=record_attributes)
     finally:
+      self.docmodel._auto_remove_set = auto_remove_set
       # It is possible for formula evaluation to have side-effects that produce DocActions (e.g.
       # lookupOrAddDerived() creates those). In case of get_formula_error(), these aren't fully
       # processed (e.g. don't get applied to DocStorage), so it's important to reverse them.
